@@ -354,6 +354,12 @@ func main() {
 		if err := json.Unmarshal(raw, &c); err != nil {
 			kit.Harness("bad case: %v", err)
 		}
+		if c.Kind == "matchfile" {
+			r.Watch(127, []byte("M"+c.Name))
+		} else {
+			r.Watch(127, []byte("S"+c.Content))
+		}
+		defer r.WatchDone(127)
 		// the functions are pure; should an implementation remember answers between
 		// calls (keyed by too little), the case needs its history: the same input is
 		// first evaluated under the other tag sets, as in the main pass
@@ -371,6 +377,15 @@ func main() {
 			return checkMatchFile(c.Name, c.Tags, nil)
 		}
 		return checkShouldBuild(c.Content, c.Tags, nil)
+	}
+	r.Stuck = func(in []byte) kit.V {
+		if len(in) > 0 && in[0] == 'M' {
+			return kit.V{Key: "no-return name=" + kit.Q(in[1:]), What: fmt.Sprintf("MatchFile(%q, ...) does not return", in[1:]), Case: kase{Kind: "matchfile", Name: string(in[1:]), Tags: []string{"linux"}}}
+		}
+		if len(in) > 0 {
+			in = in[1:]
+		}
+		return kit.V{Key: "no-return content=" + kit.Q(in), What: fmt.Sprintf("ShouldBuild(%q, ...) does not return", in), Case: kase{Kind: "shouldbuild", Content: string(in), Tags: []string{"linux"}}}
 	}
 	r.ConcurrentReplay = true
 	r.Noise = func(i int) {
@@ -456,11 +471,13 @@ func main() {
 							content = strings.ReplaceAll(content, "\n", "\r\n")
 						}
 						atomic.AddInt64(&nHeaders, 1)
+						r.Watch(w, []byte("S"+content))
 						for _, ts := range tagSets {
 							for _, v := range checkShouldBuild(content, ts, st) {
 								r.Violation(v.Key, v.What, v.Case)
 							}
 						}
+						r.WatchDone(w)
 					}
 				}
 			}
@@ -498,11 +515,13 @@ func main() {
 				if i&0xff == 0 && r.Expired() {
 					return
 				}
+				r.Watch(w, []byte("M"+names[i]))
 				for _, ts := range mfTags {
 					for _, v := range checkMatchFile(names[i], ts, st) {
 						r.Violation(v.Key, v.What, v.Case)
 					}
 				}
+				r.WatchDone(w)
 			}
 		}(w)
 	}
